@@ -65,14 +65,27 @@ def decide_variant(I, st, lz, here):
         raise Unsupported("no variant allowed for %r" % (lz,))
     if len(allowed) == 1:
         st.decisions[key] = allowed[0]
+        if not lz.excl:
+            I.domains.setdefault(key, [allowed[0]])
         return allowed[0]
     raise NeedFork(key, allowed, None)
+
+
+def child_name(I, parent, t, variant, field):
+    """name of the lazy child `field` of lazy `parent` (policy may alias children, e.g. the path of a syn::Meta)"""
+    if I.policy is not None:
+        n = I.policy.child_name(parent, t, variant, field)
+        if n is not None:
+            return n
+    if variant is None:
+        return "%s.%s" % (parent, field)
+    return "%s.%s.%s" % (parent, variant, field)
 
 
 def variant_value(I, st, lz, vi):
     t = I.types[lz.ty]
     vd = t.adt["variants"][vi]
-    return Agg(vi, [Lazy("%s.%s.%s" % (lz.name, vd["name"], f["name"]), f["ty"]) for f in vd["fields"]])
+    return Agg(vi, [Lazy(child_name(I, lz.name, t, vd["name"], f["name"]), f["ty"]) for f in vd["fields"]])
 
 
 def concretise_variant(I, st, lz, ptr, vi):
@@ -100,6 +113,7 @@ def decide_len(I, st, name, lo, hi):
         return st.decisions[key]
     if lo == hi:
         st.decisions[key] = lo
+        I.domains.setdefault(key, [lo])
         return lo
     raise NeedFork(key, list(range(lo, hi + 1)), None)
 
@@ -119,6 +133,8 @@ def constrain_once(st, tag, c):
         done.add(tag)
         st.extra["constrained"] = done
         st.pc.append(c)
+        # input validity predicates are assumptions, not branch conditions (exhaustiveness is relative to them)
+        st.extra["assumed"] = tuple(st.extra.get("assumed", ())) + (c,)
 
 
 def expand(I, st, lz, here, want=None):
@@ -153,6 +169,8 @@ def _expand(I, st, lz, t, want):
         return e
     if k == "float":
         return z3.FP(name, z3.Float64() if t.bits == 64 else z3.Float32())
+    if k == "pat":
+        return _expand(I, st, lz, I.types[t.elem], want)
     if k in ("ref", "rawptr"):
         pt = I.types[t.elem]
         if pt.kind == "str":
@@ -188,7 +206,7 @@ def _expand(I, st, lz, t, want):
             ln = decide_len(I, st, name, lo, hi)
             return VecVal([Lazy("%s[%d]" % (name, i), et) for i in range(ln)])
         if t.is_struct:
-            return Agg(None, [Lazy("%s.%s" % (name, f["name"]), f["ty"]) for f in t.variant_fields(0)])
+            return Agg(None, [Lazy(child_name(I, name, t, None, f["name"]), f["ty"]) for f in t.variant_fields(0)])
         if t.is_enum:
             if isinstance(want, tuple) and want[0] == "V":
                 return concretise_variant(I, st, lz, None, want[1])
@@ -220,6 +238,9 @@ class Policy:
         return None
 
     def str_content(self, I, st, name):
+        return None
+
+    def child_name(self, parent, t, variant, field):
         return None
 
     def digits_content(self, I, st, name, kind):
